@@ -206,54 +206,65 @@ def route_guards(chk, routes, fns):
 
 
 def accumulation(chk, fns):
-    """C07.R3: the default route promotes to float32 for every pair of raw-code storage dtypes."""
+    """C07.R3: the default route accumulates in float32 whenever a raw-code operand is multiplied in a half-precision context."""
     if "qbytes_mm" not in fns:
         return
     m, fn = fns["qbytes_mm"]
     a, w, s = positional_params(fn)[:3]
     table = qtype_table(chk.repo)
     storage = sorted({v["dtype"] for v in table.values() if v["bits"] == 8})
-    combos = list(itertools.product(storage, storage))
-    bad = []
-    promoted_paths = 0
-    for p in paths_of(fn):
-        if p.end[0] != "return":
-            continue
-        # which dtype are the operands cast to on this path?
-        e = p.end[1]
-        casts = [U(c.args[0]) for c in ast.walk(e) if isinstance(c, ast.Call) and isinstance(c.func, ast.Attribute) and c.func.attr == "to" and c.args and U(c.func.value) in (a, w)]
-        conds = list(p.conds)
-        for da, dw in combos:
-            env = {f"{a}.dtype": da, f"{w}.dtype": dw}
+    halves = ["torch.float16", "torch.bfloat16"]
+    combos = []
+    for sd in halves:
+        for da in [sd] + storage:  # a plain activation has the dtype of the scales
+            for dw in storage:
+                combos.append((sd, da, dw))
+    bad = {}
+    n_ok = 0
+    site = f"{m.rel}:{fn.lineno}"
+    for sd, da, dw in combos:
+        env = {f"{a}.dtype": da, f"{w}.dtype": dw, f"{s}.dtype": sd}
+        matched = False
+        for p in paths_of(fn, prune=False):
+            if p.end[0] != "return":
+                continue
             feasible = True
-            for c, truth, _ in conds:
+            for c, truth, _ in p.conds:
                 v = eval_dtype_cond(c, env)
                 if v is None:
-                    feasible = None
-                    break
+                    chk.unknown("C07.R3", site, f"qbytes_mm: condition `{U(c)[:70]}` is not a dtype test the checker can evaluate")
+                    return
                 if v != truth:
                     feasible = False
                     break
-            if feasible is None:
-                chk.unknown("C07.R3", f"{m.rel}:{fn.lineno}", f"qbytes_mm: condition `{U(conds[0][0])[:60]}` not a dtype test")
-                return
             if not feasible:
                 continue
-            if set(casts) == {"torch.float32"} and len(casts) == 2:
-                promoted_paths += 1
+            matched = True
+            e = p.end[1]
+            casts = {}
+            for c in ast.walk(e):
+                if isinstance(c, ast.Call) and isinstance(c.func, ast.Attribute) and c.func.attr == "to" and c.args and U(c.func.value) in (a, w):
+                    t = U(c.args[0])
+                    casts[U(c.func.value)] = env.get(t, t)
+            if casts.get(a) == "torch.float32" and casts.get(w) == "torch.float32":
+                n_ok += 1
             else:
-                bad.append((da, dw, casts))
-    site = f"{m.rel}:{fn.lineno}"
-    for da, dw, casts in bad:
-        if da == "torch.int8" or dw == "torch.int8":
-            chk.bad("C07.R3", site, "qbytes_mm", f"no float32 promotion for {da} x {dw}", f"qbytes_mm multiplies raw {da} by raw {dw} codes in {casts or 'the scale dtype'}", "int8 codes in float16: sums above 65504 overflow")
+                kind = "int8" if "int8" in (da + dw) else "float8"
+                actk = "plain" if da == sd else "quantized"
+                bad.setdefault((kind, actk), []).append((sd, da, dw, casts))
+        if not matched:
+            chk.unknown("C07.R3", site, f"qbytes_mm: no path for dtypes {env}")
+            return
+    for (kind, actk), lst in sorted(bad.items()):
+        sd, da, dw, casts = lst[0]
+        if kind == "float8":
+            tag = "no float32 promotion for float8 x float8" if actk == "quantized" else "no float32 promotion for float8 weights"
+            wit = "float8 activations x float8 weights in float16 with K=64 and inputs in [-1, 1]: inf" if actk == "quantized" else "float16 activations of magnitude ~10 x float8 weights with K=512: the float16 accumulation of x*code (codes up to 448) overflows although the scaled result fits"
         else:
-            chk.bad("C07.R3", site, "qbytes_mm", "no float32 promotion for float8 x float8", f"qbytes_mm multiplies raw {da} by raw {dw} codes in the scale dtype ({casts}): with float16 scales the product of codes up to 448*448 (57344^2) overflows before the scale is applied",
-                    "float8 activations x float8 weights in float16 with K=64 and inputs in [-1, 1]: inf")
-    if not bad:
-        chk.ok("C07.R3", site, f"qbytes_mm promotes to float32 for all {len(combos)} pairs of 8-bit storage dtypes")
-    else:
-        chk.ok("C07.R3", site, f"qbytes_mm promotes to float32 for {len(combos) - len(bad)} of {len(combos)} pairs of 8-bit storage dtypes")
+            tag = f"no float32 promotion for int8 operand ({actk} activations)"
+            wit = "float16 activations x int8 weights with in_features=512 and activations of magnitude 8-16: sum of x*code exceeds 65504 before the scale is applied"
+        chk.bad("C07.R3", site, "qbytes_mm", tag, f"qbytes_mm multiplies raw codes in half precision for {len(lst)} dtype combination(s), e.g. scales {sd}, activations {da}, weights {dw}: operands cast to {casts}", wit)
+    chk.ok("C07.R3", site, f"qbytes_mm accumulates in float32 for {n_ok} of {len(combos)} (scale dtype, activation dtype, weight dtype) combinations with half-precision scales")
 
 
 def eval_dtype_cond(c, env):
@@ -267,10 +278,14 @@ def eval_dtype_cond(c, env):
         return None if v is None else not v
     if isinstance(c, ast.Compare) and len(c.ops) == 1:
         l, r = U(c.left), U(c.comparators[0])
-        if l in env and r.startswith("torch."):
-            eq = env[l] == r
-        elif r in env and l.startswith("torch."):
-            eq = env[r] == l
+        def val(t):
+            if t in env:
+                return env[t]
+            if t.startswith("torch.") and t.count(".") == 1:
+                return t
+            return None
+        if val(l) is not None and val(r) is not None and isinstance(c.ops[0], (ast.Eq, ast.Is, ast.NotEq, ast.IsNot)):
+            eq = val(l) == val(r)
         elif l in env and isinstance(c.comparators[0], (ast.Tuple, ast.List)) and isinstance(c.ops[0], (ast.In, ast.NotIn)):
             eq = env[l] in [U(x) for x in c.comparators[0].elts]
             return eq if isinstance(c.ops[0], ast.In) else not eq
